@@ -126,9 +126,11 @@ add(Contract(
         # a false when-condition (or a count <= 0 under a when): empty list, nothing consumed
         "implies(seq_skipped(self), len(SEQ(pkt, self)) == 0 and result == offset)",
     ],
+    # failures come from the element field or from the callbacks only: the sequence itself never gives up on an input
+    # (in particular not by looking at how many bytes follow, C14)
     raises={'PacketError': ["exc.was_error_found_in_unpacking_phase == True", "StackWF(exc)",
-                            "fresh_since(exc) and fresh_since(exc.fields_stack)"],
-            'OtherException*': []},
+                            "fresh_since(exc) and fresh_since(exc.fields_stack)", "not g_own_raise"],
+            'OtherException*': ["not g_own_raise"]},
     loops={
         0: LoopSpec(["0 <= it", "offset >= 0", "len(sequence) == it",
                      "hasslot(pkt, self.field_name) and same(slot(pkt, self.field_name), sequence)"],
